@@ -29,6 +29,8 @@ def register(reg):
     udp_common.reg_serialize_var(reg, PID)
     udp_common.reg_parse_header(reg, "C02")
     reg.fns["hippolyzer.lib.base.message.udpdeserializer:UDPMessageDeserializer._parse_message_header@plain"].also.append(PID)
+    from contracts import c01b_contracts
+    c01b_contracts.register_p2(reg, PID)
 
 
 from contracts import c01_native
